@@ -405,6 +405,7 @@ fn replay(case: &Value, st: &mut Stats, seed: u64) {
         }
     };
     let c = case.clone();
+    crate::zipapi::APPEND_CHUNK.with(|x| x.set(case["stream_chunk"].as_u64().unwrap_or(0) as usize));
     for (r, h) in case["history"].as_array().cloned().unwrap_or_default().iter().enumerate() {
         let (op, cm, fin) = (h[0].as_u64().unwrap_or(0) as usize, h[1].as_u64().unwrap_or(0) as usize, h[2].as_bool().unwrap_or(true));
         println!("  round {r}: {} / comment {} / {}", OPS[op], cm_name(cm), if fin { "finish" } else { "drop" });
@@ -487,6 +488,32 @@ pub fn run(args: &Args) -> i32 {
         ctx.stats.max_depth = r as u64 + 1;
         crate::diag!("  [C13] round {} done at {:.1}s ({} successor states)", r + 1, ctx.elapsed(), n.len());
         states = n;
+    }
+    // the first round again through a stream that transfers at most 7 / 32 bytes per read or write call (legal for Read and
+    // Write): the round must leave the same kind of archive
+    {
+        let small: Vec<usize> = (0..bs.len()).filter(|i| bs[*i].1.len() < 1 << 20).collect();
+        let mut cstates = vec![];
+        for &bi in &small {
+            if let Ok(s) = base_state(bs[bi].1.clone()) {
+                cstates.push((bi, s));
+            }
+        }
+        let (cs, bs_r, src_r) = (&cstates, &bs, &src);
+        let combos: Vec<(usize, usize, usize)> = [7usize, 32].iter().flat_map(|c| [0usize, 1].into_iter().flat_map(move |op| [0usize, 1, 2].into_iter().map(move |cm| (*c, op, cm)))).collect();
+        let cr = &combos;
+        let s = par_for((cstates.len() * combos.len()) as u64, 1, |t, st| {
+            let (bi, state) = &cs[t as usize / cr.len()];
+            let (chunk, op, cm) = cr[t as usize % cr.len()];
+            let label = &bs_r[*bi].0;
+            let base_bytes = &bs_r[*bi].1;
+            let case = move || json!({"base_label": label, "base": if base_bytes.len() <= 4096 { hex(base_bytes) } else { String::new() }, "history": [[op, cm, true]], "stream_chunk": chunk});
+            crate::zipapi::APPEND_CHUNK.with(|c| c.set(chunk));
+            step(state, op, cm, true, 0, seed, src_r, st, &case, (10u64 << 40) | t, label);
+            crate::zipapi::APPEND_CHUNK.with(|c| c.set(0));
+        });
+        ctx.stats.merge(s);
+        ctx.bound("chunked_stream_rounds", json!({"bases": small.len(), "per_call_limit": [7, 32], "ops": ["nothing", "file-stored"], "comment": ["keep", "shorter", "longer"]}));
     }
     // comment lengths swept one byte at a time around the old length: the new end structures end 0..40 bytes before / after
     // the old end of the stream (stale bytes behind the new end record must never confuse a reader), on archives with and
